@@ -82,11 +82,14 @@ def edge_census(sp, idmap, opts):
         a, b = supply.ends(o)
         if b is None:
             continue  # a valve attached to a pipe adds no edge of its own
-        respect = opts.get("respect_status_" + kw, True)
+        # respect_status_branches_all, when given, overrides the per-component flags (also for the valves on pipes)
+        allflag = opts.get("respect_status_branches_all", None)
+        respect = opts.get("respect_status_" + kw, True) if allflag not in (True, False) else allflag
+        respect_valves = opts.get("respect_status_valves", True) if allflag not in (True, False) else allflag
         on = o.get("in_service", True) if k != "valve" else o.get("opened", True)
         if respect and not on:
             continue
-        if k == "pipe" and opts.get("respect_status_valves", True):
+        if k == "pipe" and respect_valves:
             if any(e == o["id"] and not opened for (j, e), opened in an_pi.items()):
                 continue
         if opts.get("respect_status_junctions", True) and (not jins[a] or not jins[b]):
@@ -147,6 +150,12 @@ def option_sets(tier, nflags_off):
     for a, b in itertools.combinations(names, 2):
         if tier == "thorough" or (a.startswith("respect") != b.startswith("respect")):
             out.append({a: False, b: False})
+    # the override flag for all branch components, alone and against a per-component flag
+    out.append({"respect_status_branches_all": False})
+    out.append({"respect_status_branches_all": True})
+    for kw in (SIG_KW if tier == "thorough" else ["valves", "pipes"]):
+        out.append({"respect_status_branches_all": True, "respect_status_%s" % kw: False})
+        out.append({"respect_status_branches_all": False, "respect_status_%s" % kw: True})
     return out
 
 
